@@ -71,6 +71,7 @@ fn dispatch(cmd: &str, rest: &str) -> String {
         "oracle01" => syn::oracle01(&util::unhex_str(rest)),
         "steps" => syn::steps(&util::unhex_str(rest)),
         "li" => li::run(rest),
+        "lir" => li::run_ranges(rest),
         "ws" => ws::run(rest),
         "hist" => hist::run(rest),
         "srv" => srv::run(rest),
